@@ -92,6 +92,12 @@ def c17_desc(rng):
         for s in desc["structs"]:
             if enums and rng.random() < 0.5:
                 rng.choice(s["fields"])["type"] = ("enum", rng.choice(enums))
+    if rng.random() < 0.35:
+        # long field names: nested leaves flatten to symbols of more than 32 characters (what a DBC symbol may hold), and whatever a
+        # back end does to shorten them must be the same in every process
+        for st in desc["structs"]:
+            for f in st["fields"]:
+                f["name"] = rng.choice(["supply_voltage_millivolts", "diagnostics_temperature_celsius", "front_left_corner_wheel_speed", "status"]) + "_" + f["name"]
     gen_schema.add_can_impls(rng, desc, p=0.9)
     if flavour != "wide":
         for im in desc["impls"]:
